@@ -60,6 +60,20 @@ impl DistRun {
         match cfg.distribution_asset { AssetInfo::NativeToken { denom } => denom, AssetInfo::Token { contract_addr } => contract_addr }
     }
 
+    /// switches the collector's take rate on (the DAO's cut of every forwarded balance)
+    pub fn set_take_rate(&mut self, atomics: u128) {
+        let owner = self.w.owner.clone();
+        let rs = self.w.exec(&owner, &self.hub.collector.clone(), &white_whale_std::fee_collector::ExecuteMsg::UpdateConfig {
+            owner: None, pool_router: None, fee_distributor: None, pool_factory: None, vault_factory: None,
+            take_rate: Some(cosmwasm_std::Decimal::new(Uint128::new(atomics))), take_rate_dao_address: Some(self.dao.to_string()), is_take_rate_active: Some(true) }, &[]);
+        assert!(rs.is_ok(), "take rate: {}", rs.err());
+    }
+    /// the take rate in force (atomics; 0 when switched off)
+    pub fn take_rate(&self) -> u128 {
+        let c: white_whale_std::fee_collector::Config = self.w.query(&self.hub.collector, &white_whale_std::fee_collector::QueryMsg::Config {}).unwrap();
+        if c.is_take_rate_active { c.take_rate.atomics().u128() } else { 0 }
+    }
+
     pub fn current_id(&self) -> u64 {
         let r: EpochResponse = self.w.query(&self.hub.distributor, &QueryMsg::CurrentEpoch {}).unwrap();
         r.epoch.id.u64()
@@ -134,7 +148,8 @@ impl DistRun {
                 let dd = self.distribution_denom();
                 self.w.mint_native(&col, &dd, x);
                 // the collector forwards its whole balance of the distribution asset and nothing else
-                pres = denoms.iter().map(|d| json!({"inflow": s(if *d == dd { self.w.balance(&col, &A::Native((*d).into())) } else { 0 })})).collect();
+                let take = self.take_rate();
+                pres = denoms.iter().map(|d| json!({"inflow": s(if *d == dd { self.w.balance(&col, &A::Native((*d).into())) } else { 0 }), "take": s(take)})).collect();
                 self.w.exec(&u, &self.hub.distributor.clone(), &ExecuteMsg::NewEpoch {}, &[])
             }
             "claim" => {
@@ -206,6 +221,7 @@ pub fn run_schedule(rec: &mut Rec, seed: u64, run: u64, line: &str, table: usize
     let v: Value = serde_json::from_str(line).unwrap();
     let ops = v["ops"].as_array().unwrap();
     let mut p = DistRun::new(1);
+    if table % 4 == 3 { p.set_take_rate(333_333_333_333_333_333); }
     reset(rec, &mut p, seed, run, ops.len(), Some(line), table);
     for (i, o) in ops.iter().enumerate() {
         let op = o["op"].as_str().unwrap();
@@ -225,6 +241,9 @@ pub fn run_random(rec: &mut Rec, seed: u64, run: u64, nops: usize, multi: bool) 
     let mut r = gen::rng(seed, run ^ if multi { 0x4d55_4c54 } else { 0x4449_5354 });
     let grace = r.gen_range(1..=5u64);
     let mut p = DistRun::new_kind(grace, multi);
+    // every third history runs with the collector's take rate switched on: the distributor then receives the forwarded
+    // balance minus the DAO's cut, which is rarely a whole number
+    if run % 3 == 1 { p.set_take_rate(*gen::pick(&mut r, &[300_000_000_000_000_000u128, 333_333_333_333_333_333, 100_000_000_000_000_000, 999_999_999_999_999_999, 1])); }
     reset(rec, &mut p, seed, run, nops, None, 0);
     let scale = *gen::pick(&mut r, &[1_000u128, 1_000_000_000, 1u128 << 64, 1u128 << 90]);
     let mut g = grace;
